@@ -195,7 +195,7 @@ class G:
             return None
         return cur
 
-    def _feas_step(self, bb, env, tracked, sw_local):
+    def _feas_step(self, bb, env, tracked, sw_local, learn_edges=False):
         """-> list of (successor, kind, env') honouring the tags in env (a frozenset of (local, tag));
         tag = (variant name | 'true' | 'false', tag of the single payload or None)"""
         e = dict(env)
@@ -241,10 +241,33 @@ class G:
                 elif kind == "enum":
                     only = t["otherwise"]
         out = []
+        learn = None
+        if learn_edges and k == "switch" and bb in sw_local and only is None:
+            kind, pl, sw = sw_local[bb]
+            if not pl["p"]:
+                # the edge taken tells the tag of the tested local (path condition)
+                inv = {}
+                for nm, tg_ in sw.variants.items():
+                    if tg_ is not None:
+                        inv.setdefault(tg_, []).append(nm)
+                locs = [pl["l"]]
+                # `_t = copy _flag; switchInt(move _t)`: the flag itself is what the edge tells about
+                for s_ in reversed(blk["stmts"]):
+                    if s_["k"] == "assign" and s_["lhs"]["l"] == pl["l"] and not s_["lhs"]["p"]:
+                        if s_["rv"]["k"] == "use":
+                            src = s_["rv"]["op"].get("copy") or s_["rv"]["op"].get("move")
+                            if src is not None and not src["p"]:
+                                locs.append(src["l"])
+                        break
+                learn = (locs, {tg_: nms[0] for tg_, nms in inv.items() if len(nms) == 1})
         for (tgt, ek, lab) in self.succ[bb]:
             if only is not None and ek == N and tgt != only:
                 continue
             e2 = e
+            if learn is not None and ek == N and tgt in learn[1]:
+                e2 = dict(e)
+                for l_ in learn[0]:
+                    e2[l_] = (learn[1][tgt], None)
             if k == "call" and ek == N:
                 d = t["dest"]
                 e2 = dict(e)
@@ -341,6 +364,102 @@ class G:
                 prev[t] = x
                 dq.append(t)
         return None
+
+    def return_tags(self, starts, kinds=(N,), avoid_edges=(), avoid_nodes=(), env0=None, local=0):
+        """tags the returned value (local 0) can have at the `return`s reachable from `starts` along feasible paths
+        under the given avoidance: a set of variant/bool names, with None for "unknown".  Answers questions of the
+        form "can this function return true without passing X?" whatever shape the code has."""
+        fs = self._feas_setup()
+        out = set()
+        if not fs:
+            for x in self.reach(starts, kinds=kinds, avoid_edges=avoid_edges, avoid_nodes=avoid_nodes):
+                if self.term(x)["k"] == "return":
+                    out.add(None)
+            return out
+        tracked, sw_local = fs
+        tracked = set(tracked) | {local} | set(env0 or {})
+        # values flowing into the returned local must be tracked as well
+        changed = True
+        while changed:
+            changed = False
+            for blk in self.b.blocks:
+                for s_ in blk["stmts"]:
+                    if s_["k"] == "assign" and not s_["lhs"]["p"] and s_["lhs"]["l"] in tracked and s_["rv"]["k"] == "use":
+                        src = s_["rv"]["op"].get("move") or s_["rv"]["op"].get("copy")
+                        if src is not None and src["l"] not in tracked:
+                            tracked.add(src["l"])
+                            changed = True
+        # bool switches on the newly tracked locals take part too
+        sw_local = dict(sw_local)
+        for bb in range(self.n):
+            t = self.term(bb)
+            if t["k"] == "switch" and bb not in sw_local:
+                sw = Switch(self, bb, t)
+                pl = t["discr"].get("copy") or t["discr"].get("move")
+                if sw.kind == "bool" and pl is not None and not pl["p"]:
+                    sw_local[bb] = ("bool", pl, sw)
+                    tracked.add(pl["l"])
+        e0 = frozenset((env0 or {}).items())
+        ae = set(avoid_edges)
+        seen = set()
+        dq = deque()
+        for s0 in starts:
+            if s0 not in avoid_nodes and s0 >= 0:
+                seen.add((s0, e0))
+                dq.append((s0, e0))
+        while dq:
+            x, env = dq.popleft()
+            if self.term(x)["k"] == "return":
+                # env after the block's statements: run the step on a copy and read the tag
+                e = dict(env)
+                for (t_, k_, env2) in [(None, None, None)]:
+                    pass
+                tags = self._env_after_stmts(x, env, tracked)
+                tg = tags.get(local)
+                out.add(tg[0] if tg is not None else None)
+                continue
+            for (t, k, env2) in self._feas_step(x, env, tracked, sw_local, learn_edges=True):
+                if t < 0 or k not in kinds or t in avoid_nodes or (x, t) in ae or (t, env2) in seen:
+                    continue
+                if len(seen) > 60000:
+                    env2 = frozenset()
+                    if (t, env2) in seen:
+                        continue
+                seen.add((t, env2))
+                dq.append((t, env2))
+        return out
+
+    def _env_after_stmts(self, bb, env, tracked):
+        e = dict(env)
+        for s_ in self.b.blocks[bb]["stmts"]:
+            if s_["k"] != "assign":
+                continue
+            l = s_["lhs"]["l"]
+            rv = s_["rv"]
+            if l in tracked:
+                if s_["lhs"]["p"]:
+                    e.pop(l, None)
+                elif rv["k"] == "agg" and rv.get("ak") == "adt" and rv.get("variant") is not None:
+                    e[l] = (rv["variant"], None)
+                elif rv["k"] == "use" and "const" in rv["op"] and rv["op"]["const"].get("disp") in ("true", "false"):
+                    e[l] = (rv["op"]["const"]["disp"], None)
+                elif rv["k"] == "use":
+                    src = rv["op"].get("move") or rv["op"].get("copy")
+                    tg = self._tag_of_place(e, src) if src is not None else None
+                    if tg is not None:
+                        e[l] = tg
+                    else:
+                        e.pop(l, None)
+                else:
+                    e.pop(l, None)
+        return e
+
+    def live(self, bb):
+        """reachable from the entry along feasible paths (inlining constants for parameters makes some arms dead)"""
+        r = getattr(self, "_live", None)
+        if r is None:
+            r = self._live = self.reach([0])
+        return bb in r
 
     def edge_dominates(self, edge, node, kinds=(N, U, D)):
         """Every path entry -> node uses `edge` (a, b)."""
